@@ -490,7 +490,7 @@ func (vf *VFlow) callResult(t ssa.Value, idx int, fl uint8, out LabelSet, seen m
 						for l := range vf.objLabels(r.X, depth) {
 							if strings.HasPrefix(l, "alloc:") {
 								vf.allocKeys(l, fl, out, seen, depth)
-							} else {
+							} else if !strings.HasPrefix(l, "const:") && !strings.HasPrefix(l, "via:") { // (a nil map has no keys)
 								out.add(l+"[key]", fl)
 							}
 						}
@@ -647,7 +647,7 @@ func (vf *VFlow) callResult(t ssa.Value, idx int, fl uint8, out LabelSet, seen m
 	// constant string arguments are part of the leaf's name: FormValue("RelayState")
 	var cargs []string
 	for _, a := range com.Args {
-		if cs, ok := constString(a); ok {
+		if cs, ok := constString(vf.ctxArg(a)); ok {
 			cargs = append(cargs, fmt.Sprintf("%q", cs))
 		}
 	}
@@ -1328,4 +1328,39 @@ func (vf *VFlow) boxedObjects(t types.Type) []ssa.Value {
 		}
 	}
 	return vf.boxed[n]
+}
+
+// ctxArg: a parameter of the function whose call is being evaluated (call-site context) stands for the argument of
+// that call - `template.New(name).Parse(text)` inside a helper called with a constant text is a Parse of that constant.
+func (vf *VFlow) ctxArg(a ssa.Value) ssa.Value {
+	ctx := vf.ctx
+	for d := 0; d < 4; d++ {
+		p, ok := a.(*ssa.Parameter)
+		if !ok || len(ctx) == 0 {
+			return a
+		}
+		top := ctx[len(ctx)-1]
+		fn := p.Parent()
+		hit := false
+		for _, tg := range vf.targets(top) {
+			if tg == fn {
+				hit = true
+			}
+		}
+		if !hit {
+			return a
+		}
+		idx := -1
+		for i, q := range fn.Params {
+			if q == p {
+				idx = i
+			}
+		}
+		if idx < 0 || idx >= len(top.Common().Args) {
+			return a
+		}
+		a = top.Common().Args[idx]
+		ctx = ctx[:len(ctx)-1]
+	}
+	return a
 }
